@@ -39,6 +39,9 @@ func c13StepSrc(s string) string {
 		return ".{|x| x.nonexistent}"
 	case "Lraise":
 		return fmt.Sprintf(".{|x| raise %s.new(\"boom\")}", p[1])
+	case "Sb2len":
+		// a property-call step that carries a keyword argument (through the proxy): binary text and back = identity
+		return ".{|x| x.S(base: 2)}.I(base: 2)"
 	}
 	return ""
 }
@@ -106,6 +109,12 @@ func genC13(c *Ctx) {
 				s = "Lraise:" + c.Rng.Pick(c13ErrKinds)
 			}
 			steps = append(steps, s)
+		}
+		if k > 0 && c.Rng.Intn(5) == 0 {
+			steps[c.Rng.Intn(k)] = "Sb2len"
+		}
+		if k > 0 && c.Rng.Intn(6) == 0 {
+			steps[k-1] = "Lnil" // a success whose value is nil (only as the last step: Nil has its own arithmetic props)
 		}
 		acc := c.Rng.Pick(accs)
 		kind := c.Rng.Pick(c13ErrKinds)
